@@ -314,6 +314,28 @@ impl<'a, T: Read + Write + Seek> PointCloudWriter<'a, T> {
             }
         }
 
+        // Float ranges must be ordered and scaled integers need a usable scale and offset,
+        // otherwise the stored values cannot be interpreted when reading the point cloud
+        for record in prototype {
+            let ordered = match record.data_type {
+                RecordDataType::Single { min, max } => {
+                    min.unwrap_or(f32::MIN) <= max.unwrap_or(f32::MAX)
+                }
+                RecordDataType::Double { min, max } => {
+                    min.unwrap_or(f64::MIN) <= max.unwrap_or(f64::MAX)
+                }
+                RecordDataType::ScaledInteger { scale, offset, .. } => {
+                    scale.is_finite() && scale != 0.0 && offset.is_finite()
+                }
+                RecordDataType::Integer { .. } => true,
+            };
+            if !ordered {
+                Error::invalid(
+                    "Float records need a minimum that is not above the maximum, scaled integer records a finite non-zero scale and a finite offset",
+                )?
+            }
+        }
+
         // Row & column check
         if let Some(record) = get(RecordName::RowIndex) {
             match record.data_type {
